@@ -57,6 +57,7 @@ def buildint_harness():
         except Exception as e: return None, 'inputs missing from trace: %s (%s)' % (sorted(inp), e)
         lit = {10: str(V), 16: '0x%x' % V, 2: '0b' + bin(V)[2:], 8: '0%o' % V}[base] + sfx
         uns = 'u' in sfx.lower(); nl = sfx.lower().count('l'); dec = base == 10
+        if 'exactly one constant' in failed['desc']: return None, 'no native oracle for HOW the constant is built (const_var or not); type and value may well be right'
         fits = {'int': V <= 0x7fffffff, 'uint32_t': V <= 0xffffffff, 'int64_t': V <= 0x7fffffffffffffff, 'size_t': True, 'long_long': V <= 0x7fffffffffffffff, 'unsigned_long_long': True}
         if not uns: seq = {0: ['int', 'int64_t', 'long_long'] if dec else ['int', 'uint32_t', 'int64_t', 'size_t', 'long_long', 'unsigned_long_long'], 1: ['int64_t', 'long_long'] if dec else ['int64_t', 'size_t', 'long_long', 'unsigned_long_long'],
                            2: ['long_long'] if dec else ['long_long', 'unsigned_long_long']}[nl]
@@ -69,7 +70,12 @@ def buildint_harness():
         out = r.stdout.split()
         ok = len(out) == 2 and out[0] == want and out[1] == str(V)
         return (False if ok else True), 'literal %s -> real interpreter: %s; C++: type %s value %d' % (lit, ' '.join(out) or r.stdout[:80], want, V)
-    return Harness('I1.buildInt', FAM, [rx], 'c16_buildint.c', stubs=[r'^std::__cxx11::sto(ll|ull)\(', r'chaiscript::const_var'], shapes=shapes,
+    # a literal must be built by const_var<T> (const: C07 / C08).  Any other way of producing the value (Boxed_Number conversions ...) is kept out of the closure:
+    # such callees get no body - their result is arbitrary - and the const_var obligation below then fails with a verdict instead of a time-out
+    st = [r'^std::__cxx11::sto(ll|ull)\(', r'chaiscript::const_var', r'chaiscript::Boxed_Number::']
+    g0, info0 = core.translate(FAM, [rx], st + core.STRING_MODEL, tag='I1_probe')
+    other = ['F_' + core.cname(e.split('|')[0].strip()) for e in info0['ext'] if '12Boxed_Number' in e]
+    return Harness('I1.buildInt', FAM, [rx], 'c16_buildint.c', stubs=st, shapes=shapes, allow_nobody=other,
                    opts=['--unwind', '10'], timeout=300, mem_gb=6, string_model=True, inputs=['V', 'text'], replay=replay,
                    note='all 64-bit values V, every valid suffix spelling (case variants), 4 bases')
 
